@@ -81,7 +81,8 @@ bool IPV4SocketAddress::FromString(const string &input,
   if (!IPV4Address::FromString(input.substr(0, pos), &address))
     return false;
   uint16_t port;
-  if (!StringToInt(input.substr(pos + 1), &port))
+  // strict, so trailing characters (including further fields) are rejected
+  if (!StringToInt(input.substr(pos + 1), &port, true))
     return false;
   *socket_address = IPV4SocketAddress(address, port);
   return true;
